@@ -46,6 +46,12 @@ def recipes(draw, mspec):
   rules = draw(R.rules_for(engine.op_out_names(mspec), engine.ops_present(mspec),
                            max_rules=3, cfg_pool=R.STATIC_CFGS * 2 + R.FLOAT_COMPUTE_CFGS,
                            allow_skip=False))
+  if draw(st.integers(0, 7)) == 0:
+    # blockwise (emulated sub-channel) weights for FULLY_CONNECTED: only reachable
+    # with skip_checks
+    rules = rules + [R.rule('.*', 'FULLY_CONNECTED', R.MINMAX, R.cfg(
+        w=[draw(st.sampled_from([8, 4])), True, 'BLOCKWISE', 'INT', draw(st.sampled_from([1, 2, 2]))],
+        cp='FLOAT', ed=True, skip=True))]
   if draw(st.integers(0, 2)) == 0:
     # handed over as a caller-owned list of dicts (as read from a recipe file,
     # no_quantize entries without op_config) instead of by update calls
